@@ -2,8 +2,8 @@
 import os
 from common import *
 from props import features_text
-LEVEL_TEXT = 'absence of panics (overflow, index, unwrap, shift, reachable unreachable!) for all inputs within the bounds of the encoded input-facing kernels'
-OUTSIDE = ['the several hundred expect/unwrap/unreachable sites whose preconditions are libclang AST shapes', 'stack depth and termination of the whole pipeline', 'clang-rejected headers and file-system faults (FFI / IO)']
+LEVEL_TEXT = 'absence of panics (overflow, index, unwrap, shift, reachable unreachable!) for all inputs within the bounds of the encoded input-facing kernels; the two error paths (clang diagnostics -> error value, input path faults -> specific error) decided on the real statements against a modelled environment'
+OUTSIDE = ['the several hundred expect/unwrap/unreachable sites whose preconditions are libclang AST shapes', 'stack depth and termination of the whole pipeline', 'what libclang reports for a given header text, and real file-system behaviour: both are modelled (diagnostic list; stat/lstat of one path)', 'assert!/expect sites in the parser whose preconditions are libclang shapes (e.g. Var::parse on unresolvable types: seeded change C12-m3 is not decided)']
 EXPLANATION = 'Kani default checks (dev-profile semantics) on every path of RustTarget::from_str over shape-parameterised strings; plus all harnesses of the other properties, which carry the same checks.'
 
 
@@ -23,4 +23,27 @@ def build(tier, seed):
         ks.append(lay)
     except Exception as e:
         ks.append(Kernel(name='tracker_unconstrained', error='build-failed: %s' % e))
+    def errors():
+        G = os.path.dirname(os.path.dirname(os.path.abspath(__file__)))
+        import re
+        pf = extract_from('lib.rs', r'^fn parse\(context: &mut BindgenContext\) -> Result<\(\), BindgenError> \{')
+        m = re.search(r'\{\n(.*?)\n\s*let cursor = context\.translation_unit\(\)\.cursor\(\);', pf, flags=re.S)
+        if not m or 'ClangDiagnostic' not in m.group(1):
+            raise SliceError('fn parse: diagnostics prologue shape changed')
+        head = m.group(1)
+        lib = rd('lib.rs')
+        m2 = re.search(r'\n(        #\[cfg\(unix\)\]\n        fn can_read\(.*?)\n        for \(idx, f\) in input_unsaved_files', lib, flags=re.S)
+        if not m2 or 'NotExist' not in m2.group(1):
+            raise SliceError('Bindings::generate: input path pre-check shape changed')
+        pre = m2.group(1)
+        h = open(os.path.join(G, 'harness', 'c12_errors.rs')).read().replace('/*PARSE_HEAD*/', head).replace('/*PRECHECK*/', pre)
+        k = Kernel(name='error_paths')
+        k.files = {'src/lib.rs': h}
+        k.harnesses = [H('clang_rejection_is_an_error_value', timeout=600, desc='fn parse: Err(ClangDiagnostic) with every error/fatal message in order iff some diagnostic has severity >= error; otherwise goes on', sample='up to 3 diagnostics, all severities'),
+                       H('input_path_faults_yield_their_specific_error', timeout=600, desc='Bindings::generate input pre-check: missing -> NotExist, directory -> FolderAsHeader, no read bit -> InsufficientPermissions, judged on what the path resolves to (symbolic links followed)', sample='0..2 headers; regular / directory / symlink (dangling, to dir, to unreadable)')]
+        k.encoded = [enc('lib.rs', 'fn parse (diagnostics prologue)', head), enc('lib.rs', 'Bindings::generate (input path pre-check, can_read)', pre)]
+        k.stubs = ['clang diagnostics: list of (severity, message id); String: the sequence of pushed messages', 'std::fs::{metadata, symlink_metadata}, PermissionsExt: a model of stat / lstat on one path (exists, link, target)', 'eprintln!: no-op']
+        k.bounds = ['<= 3 diagnostics; <= 2 input headers; modes <= 0o7777']
+        return k
+    ks.append(kernel_or_error('error_paths', errors))
     return ks
